@@ -11,7 +11,8 @@
 (*                             never beyond written, pattern intact        *)
 (*   eof   {dir, off}          Transmit of the rest and the FIN ; EOF(dir):*)
 (*                             only after close and with read = written    *)
-(*   cut   {note}              Cut(where)                                  *)
+(*   cut   {note}              Cut(where); note "stall" = Stall (a transit *)
+(*                             link stops draining), followed by its cut   *)
 (*   accepted {dir, note}      read deadline found armed on the stream that  *)
 (*                             reads dir, right after Accept/Dial: "none"    *)
 (*   notice {dir, note}        Notice(dir): a transient unreachable notice *)
